@@ -85,8 +85,8 @@ func init() {
 		Technique: "forking finite-domain fold (AST folding over row shapes x capability flag) of the row-count handlers and of the handler-choosing function; stateful CFG path exploration of accumulatorIter.Next; CFG cycle test on the REPLACE delete",
 		Explanation: "The affected/matched counts a DML statement reports are produced by rowexec.accumulatorIter: it drains the DML iterator, hands each row to the handler chosen for the statement kind and, at EOF, emits the handler's OkResult. Decided: " +
 			"(N1) accounting tables: handleRowUpdate / handleRowUpdateWithIgnore / handleRowMatched / okResult / RowsMatched of every handler, folded from a freshly built handler over sequences of row shapes (single-width row; old||new row with old==new or old!=new; deleted||inserted row whose deleted half is all NULL or (NULL, value); per-table relations for a join row) and both values of the CLIENT_FOUND_ROWS flag, yield MySQL's documented accounting: INSERT 1 per row; REPLACE 1 per inserted row, 2 when a row was deleted as well; INSERT … ON DUPLICATE KEY UPDATE 1 inserted / 2 updated / 0 set to its current values (1 under CLIENT_FOUND_ROWS); UPDATE matched = every row handed over (also rows skipped by IGNORE), changed = rows with old!=new, affected = changed, or matched under CLIENT_FOUND_ROWS, Info = {matched, changed}; UPDATE … JOIN the same per table row; DELETE 1 per row; every fork of the fold (conditions on values outside the abstraction) must end in the same counts; " +
-			"(N2) dispatch: getRowHandler, folded per DML iterator type (and per replacer / updater field of insertIter), returns the handler of the same statement kind; every handler that has a configuration flag receives getRowHandler's flag parameter, every recursive call through a wrapper forwards it unchanged; an iterator that keeps a pointer to its handler (updateJoinIter.accumulator) is given the handler that is returned; every iterator type that rowexec wraps in a table editor iterator has an arm; every implementation of accumulatorRowHandler is the result of some arm; " +
-			"(N3) once per row: in accumulatorIter.Next every row pulled from the child with a nil error reaches handleRowUpdate exactly once (with that row) before the next pull, handleRowUpdate is never reached while the child's error is not ruled out, the ignore variant only for an ignorable error, okResult is called only on the io.EOF edge, exactly once, and that path returns a nil error; every other return is an error return without a result; a second call of Next cannot pull again (sync.Once guard with an io.EOF return); " +
+			"(N2) dispatch: getRowHandler, folded per DML iterator type (and per replacer / updater field of insertIter), returns the handler of the same statement kind; every handler that has a configuration flag receives getRowHandler's flag parameter, every recursive call through a wrapper forwards it unchanged; an iterator that keeps a pointer to its handler (updateJoinIter.accumulator) is given the handler that is returned; every iterator type that rowexec wraps in a table editor iterator has an arm; every implementation of accumulatorRowHandler is the result of some arm; the flag every caller passes to getRowHandler is (client capabilities & 0x2) != 0, 0x2 being CLIENT_FOUND_ROWS in the MySQL handshake (the constant is folded, not matched by name); " +
+			"(N3) once per row: in accumulatorIter.Next every row pulled from the child with a nil error reaches handleRowUpdate exactly once (with that row) before the next pull, handleRowUpdate is never reached while the child's error is not ruled out, the ignore variant only for an ignorable error, okResult is called only on the io.EOF edge, exactly once, and that path returns a nil error; every other return is an error return without a result; a second call of Next cannot pull again (sync.Once guard with an io.EOF return); the error a handler returns is tested before the next pull or return; the row emitted at EOF is built from the variable bound to okResult() and neither that variable nor its RowsAffected / Info is overwritten; " +
 			"(N4) REPLACE: the handler's table has one 'a row was deleted' bit per emitted row, so between two pulls of the source insertIter.Next may delete at most one existing row per emitted row - a replacer.Delete call on a CFG cycle that avoids the source pull is reported.",
 		NotCovered: "table contents against a reference model (key encoding, statement boundary and index coupling are claimed under C14/C15/C16); the values of the counts over concrete histories: whether the DML iterators emit exactly the rows MySQL would count (WHERE/ORDER BY/LIMIT evaluation, which rows collide with a key, updateJoinIter's de-duplication of table rows by hash, INSERT IGNORE dropping rows, triggers changing rows), sql.Row.Equals itself (the fold treats it as the equality of the two halves), warnings counts, LAST_INSERT_ID / InsertID, ROW_COUNT()/FOUND_ROWS() session bookkeeping, RETURNING statements (no accumulator), LOAD DATA and foreign-key cascades (they reuse insertIter/updateIter and their handlers), the old||new width agreement of UPDATE producers (decided by C23-L), the deleted||inserted layout written by insertIter (read only through N4), the error branch of Row.Equals in the handlers.",
 		Run: func(c *Ctx) { runC13(c, real, false) },
@@ -109,6 +109,7 @@ var c13FixtureWant = []string{
 	"C13-N2:total/loadIter",
 	"C13-N3:accumulatorIter.Next/handle-once",
 	"C13-N3:accumulatorIter.Next/exits",
+	"C13-N3:accumulatorIter.Next/handler-error",
 	"C13-N4:insertIter.Next/replacer.Delete",
 }
 
@@ -149,8 +150,8 @@ func runC13(c *Ctx, nm c13Names, fx bool) {
 		return n
 	}
 	c.Rule("C13-N1", "row-count handlers folded over row shapes x CLIENT_FOUND_ROWS yield MySQL's documented affected/matched accounting", floor(29))
-	c.Rule("C13-N2", "getRowHandler gives every DML iterator kind the handler of the same statement kind, forwards the found-rows flag, couples iterator and handler, is total over the wrapped iterators", floor(24))
-	c.Rule("C13-N3", "accumulatorIter.Next: each child row reaches the handler exactly once, the result is emitted once and only at io.EOF, errors are returned without a result", floor(4))
+	c.Rule("C13-N2", "getRowHandler gives every DML iterator kind the handler of the same statement kind, forwards the found-rows flag, couples iterator and handler, is total over the wrapped iterators", floor(25))
+	c.Rule("C13-N3", "accumulatorIter.Next: each child row reaches the handler exactly once, the result is emitted once and only at io.EOF, errors are returned without a result", floor(6))
 	c.Rule("C13-N4", "between two pulls of its source the REPLACE iterator deletes at most one existing row per emitted row", floor(1))
 
 	e := &c13Env{c: c, nm: nm, fx: fx}
@@ -184,6 +185,7 @@ func runC13(c *Ctx, nm c13Names, fx bool) {
 	}
 	c13RunN1(e)
 	c13RunN2(e)
+	c13RunN2Source(e)
 	c13RunN3(e)
 	c13RunN4(e)
 	if os.Getenv("C13_DEBUG") != "" {
